@@ -8,7 +8,8 @@
 //!        "stdin"|"stdout"|"stderr": null|"inherit"|"null"|"pipe"|{"fd":N},
 //!        "pre_exec":[0|errno|-1 ...]      (0 = Ok, errno>0 = Err(Os{code}), -1 = Err(Uncategorized))
 //!        "open":[{"fd":N,"path":"..","write":bool}]   descriptors to prepare for Stdio::RawFd
-//!        "wait":true|false|"try" (Child::wait / none / Child::try_wait loop),
+//!        "wait":["wait"|"try"|"poll",..] the caller's calls on the returned Child (Child::wait / one
+//!               Child::try_wait / stdin closed + try_wait polled until not None),
 //!        "feed":"text"|null  (bytes written to a stdin pipe before waiting),
 //!        "bulk":bool (use Command::args / Command::envs instead of repeated arg / env)}
 //!
@@ -227,29 +228,40 @@ fn main() {
                 use tiny_std::io::Write as _;
                 let _ = p.write(feed.as_bytes());
             }
-            let try_mode = plan["wait"].as_str() == Some("try");
-            if try_mode || plan["wait"].as_bool().unwrap_or(true) {
-                let waited = if try_mode {
-                    // Child::try_wait until the child is gone (try_wait keeps the stdin pipe open: close it
-                    // like `wait` does, or a child reading its stdin to the end never finishes)
-                    drop(child.stdin.take());
-                    loop {
-                        match child.try_wait() {
-                            Ok(Some(st)) => break Ok(st),
-                            Ok(None) => unsafe {
-                                libc::usleep(2000);
-                            },
-                            Err(e) => break Err(e),
+            // the caller's calls on the returned Child, in the planned order:
+            //   "wait" Child::wait | "try" one Child::try_wait | "poll" close stdin, try_wait until not None
+            let ops: Vec<String> = match &plan["wait"] {
+                Value::Array(a) => a.iter().map(|x| x.as_str().unwrap().to_string()).collect(),
+                Value::Bool(false) => vec![],
+                Value::String(m) if m == "try" => vec!["poll".to_string()],
+                _ => vec!["wait".to_string()],
+            };
+            {
+                for op in &ops {
+                    let r: Result<Option<i32>, tiny_std::Error> = match op.as_str() {
+                        "wait" => child.wait().map(Some),
+                        "try" => child.try_wait(),
+                        _ => {
+                            // try_wait keeps the stdin pipe open: close it like `wait` does, or a child
+                            // reading its stdin to the end never finishes
+                            drop(child.stdin.take());
+                            loop {
+                                match child.try_wait() {
+                                    Ok(None) => unsafe {
+                                        libc::usleep(2000);
+                                    },
+                                    other => break other,
+                                }
+                            }
                         }
-                    }
-                } else {
-                    child.wait()
-                };
-                match waited {
-                    Ok(st) => ev(json!({"ev":"waited","res":"ok","status":st})),
-                    Err(e) => {
-                        let code = if let tiny_std::Error::Os { code, .. } = e { json!(code.raw()) } else { Value::Null };
-                        ev(json!({"ev":"waited","res":"err","code":code}))
+                    };
+                    match r {
+                        Ok(Some(st)) => ev(json!({"ev":"waited","op":op,"res":"ok","status":st})),
+                        Ok(None) => ev(json!({"ev":"waited","op":op,"res":"none","status":0})),
+                        Err(e) => {
+                            let code = if let tiny_std::Error::Os { code, .. } = e { code.raw() } else { 0 };
+                            ev(json!({"ev":"waited","op":op,"res":"err","status":code}))
+                        }
                     }
                 }
                 unsafe { libc::write(-1, end.as_ptr().cast(), end.len()) };
